@@ -5,6 +5,7 @@ CONSTANTS
   Stems = {"def"}
   SupTpls = {FALSE, TRUE}
   NsVals = {FALSE}
+  Shapes = {"plain"}
   Wipes = FALSE
   PFiles = {"tplB", "tplU", "supB", "supU", "supUx", "dsdlR", "dsdlD", "dsdlX"}
   MaxLo = 0
@@ -15,6 +16,7 @@ CONSTANTS
   QuickOnly = FALSE
   FwdOmitToList = TRUE
   ListDeps = TRUE
+  OwnByPrefix = FALSE
   ListUserSup = TRUE
 INVARIANT NeverInfluence
 CHECK_DEADLOCK FALSE
